@@ -1,8 +1,29 @@
 """Shared by C02 and C15: what the exit status of a report depends on, by data and by control (which return statement
 executes), through the chain output_algorithm -> output_algorithms -> output.  Intra-procedural backward slices joined at the
 call sites (a callee's status parameters are replaced by the caller's argument expressions)."""
-from sa.core import call_name, bind_args
+from sa.core import call_name
+import ast
 from sa.slicer import Slice, uses
+
+
+def bind_args(call, func):
+    """parameter -> argument expression; a **mapping argument may feed any parameter not bound otherwise (its uses are attributed to all of them)"""
+    params = [x.arg for x in func.args.posonlyargs + func.args.args]
+    out = {}
+    for i, a in enumerate(call.args):
+        if isinstance(a, ast.Starred):
+            for p in params[i:]:
+                out.setdefault(p, a.value)
+            break
+        if i < len(params):
+            out[params[i]] = a
+    for k in call.keywords:
+        if k.arg is None:
+            for p in params:
+                out.setdefault(p, k.value)
+        else:
+            out[k.arg] = k.value
+    return out
 
 
 def status_slices(repo, status_param='program_retval', oa_by_model=False):
